@@ -694,7 +694,7 @@ pub fn run(args: &Args) {
     let light = args.flag("light");
     let (dense_max, struct_max, struct_count) = match (prop.as_str(), t) {
         ("C03", false) => (1024, 1 << 17, 60),
-        ("C03", true) => (1536, 1 << 17, 100),
+        ("C03", true) => (1024, 1 << 17, 80),
         ("C07", false) => (512, 1 << 15, 60),
         ("C07", true) => (1024, 1 << 16, 150),
         ("C08", false) => (1024, 1 << 16, 80),
